@@ -366,6 +366,26 @@ def rule_r5(ctx):
                 bad = bad or v
         if bad is None:
             rr.ok(what, sample={"rule": "C02-R5", "return": ast.unparse(r.value)[:70], "verdict": "unparser text (+ defensive newline removal)"})
+            # the "defensive" removal is not harmless: the text of ONE expression contains a line
+            # break only inside a string literal, where deleting it changes the value
+            def strips(v, depth=0):
+                if depth > 6:
+                    return False
+                if is_newline_removal(v):
+                    return True
+                if isinstance(v, ast.IfExp):
+                    return strips(v.body, depth + 1) or strips(v.orelse, depth + 1)
+                if isinstance(v, ast.Name):
+                    return any(strips(n.value, depth + 1) for n in ast.walk(fi.node) if isinstance(n, ast.Assign) and any(isinstance(t, ast.Name) and t.id == v.id for t in n.targets))
+                return False
+
+            if strips(r.value):
+                rr.instances += 1
+                rr.fail(
+                    "C02-R5|convert_code_string|newline-removal-inside-literals",
+                    f"{fi.where()} line {r.lineno}: line breaks are deleted from the unparser's text (`{ast.unparse(r.value)[:70]}`). The text of one expression has a line break only INSIDE a string literal: on a 3.10/3.11 host ast.unparse writes a constant in a replacement field of a triple-quoted f-string with a real newline, and the removal silently turns the value 'a<newline>b' into 'ab'",
+                    where=fi.where(), what=what + "|newline",
+                )
         else:
             rr.fail(
                 f"C02-R5|convert_code_string|return-postprocessed",
